@@ -252,6 +252,7 @@ func runC16(c *Ctx) {
 		c16LoopDefault(c, p)
 		c16Limits(c, p)
 		c16EffectiveLimits(c, p)
+		c16AlphaHint(c, p)
 		// K7: S7 execution of the container parser's chunk walk
 		fns := loopFuncs(p, "internal/container")
 		for _, fn := range fns {
@@ -909,4 +910,150 @@ func c16EffectiveLimits(c *Ctx, p *Program) {
 	c.Check(a.effective == b.effective && a.effective > 0, "K9-effective-limit", a.name+"~"+b.name, b.pos,
 		fmt.Sprintf("both parsers accept at most %d frames (%s; %s)", a.effective, a.why, b.why),
 		fmt.Sprintf("container.%s accepts up to %d frames (%s) but mux.%s up to %d (%s): a file with more frames than the smaller limit is reported in full by one container view and rejected by the other", a.name, a.effective, a.why, b.name, b.effective, b.why))
+}
+
+// ---- K10: the VP8L header's alpha_is_used bit ----
+//
+// GetFeatures, the demuxer's per-frame HasAlpha, the VP8X alpha flag written by this package and the
+// animation decoder's key-frame test all read the alpha_is_used bit of the VP8L header. The bit is
+// the fourth field of the header: after the signature byte (0x2f) and the two 14-bit size fields comes
+// a 1-bit write. On this tree it is the constant 1 ("may have alpha"), which is always safe. Any
+// computed value must be true whenever some source pixel is not opaque; four seeded changes (by four
+// authors) computed it from the transformed pixel buffer or from a scan that stops early. The rule
+// accepts the constant only: a correct computation (libwebp writes the real value) would be reported
+// too - the price of a rule that cannot prove "scans all source pixels before any transform".
+func c16AlphaHint(c *Ctx, p *Program) {
+	c.Rule("K10 alpha hint: the 1-bit field that follows the signature byte 0x2f and the two 14-bit size fields in the VP8L header writer is the constant 1; a computed value cannot be shown by this analysis to be set whenever a source pixel is not opaque (it would have to see every source pixel before the transforms rewrite the buffer) and is reported")
+	pk := p.SSAPkg("internal/lossless")
+	if pk == nil {
+		c.AnchorMissing("K10-alpha-hint", "package internal/lossless")
+		return
+	}
+	n := 0
+	for _, fn := range p.SrcFuncs() {
+		if fn.Pkg != pk || fn.Blocks == nil {
+			continue
+		}
+		// WriteBits calls in block order
+		type wb struct {
+			call *ssa.Call
+			val  ssa.Value
+			bits int64
+		}
+		var seq []wb
+		for _, b := range fn.DomPreorder() {
+			for _, in := range b.Instrs {
+				call, ok := in.(*ssa.Call)
+				if !ok {
+					continue
+				}
+				cal := call.Call.StaticCallee()
+				if cal == nil || cal.Name() != "WriteBits" || len(call.Call.Args) != 3 {
+					continue
+				}
+				k, ok := call.Call.Args[2].(*ssa.Const)
+				if !ok || k.Value == nil {
+					seq = append(seq, wb{call, call.Call.Args[1], -1})
+					continue
+				}
+				bits, _ := constant.Int64Val(constant.ToInt(k.Value))
+				seq = append(seq, wb{call, call.Call.Args[1], bits})
+			}
+		}
+		for i := 0; i+3 < len(seq); i++ {
+			k, ok := seq[i].val.(*ssa.Const)
+			if !ok || k.Value == nil || seq[i].bits != 8 {
+				continue
+			}
+			if kv, _ := constant.Int64Val(constant.ToInt(k.Value)); kv != 0x2f {
+				continue
+			}
+			if seq[i+1].bits != 14 || seq[i+2].bits != 14 || seq[i+3].bits != 1 {
+				continue
+			}
+			n++
+			c.Func(FnName(fn))
+			// every WriteBits call that can be the next one after the second size field (the bit may be
+			// written by one of two constant calls under a branch)
+			nexts := nextWriteBits(seq[i+2].call)
+			badNext := ""
+			for _, nx := range nexts {
+				if nx == seq[i+3].call {
+					continue
+				}
+				kc, ok := nx.Call.Args[1].(*ssa.Const)
+				one := false
+				if ok && kc.Value != nil {
+					kv, _ := constant.Int64Val(constant.ToInt(kc.Value))
+					one = kv == 1
+				}
+				if !one {
+					badNext = p.Pos(nx.Pos())
+				}
+			}
+			if badNext != "" {
+				c.Fail("K10-alpha-hint", FnName(fn)+":alpha_is_used", badNext, "alpha_is_used is chosen by a branch (one path writes 1, another writes something else) instead of being the constant 1: GetFeatures, the demuxer, the VP8X alpha flag and the animation decoder's key-frame test trust this bit, and nothing shows that the condition sees every source pixel before the transforms rewrite the buffer - a picture whose bit is 0 while pixels are not opaque is reported as opaque by every header query")
+				continue
+			}
+			v := seq[i+3].val
+			for {
+				if cv, ok := v.(*ssa.Convert); ok {
+					v = cv.X
+					continue
+				}
+				break
+			}
+			key := FnName(fn) + ":alpha_is_used"
+			pos := p.Pos(seq[i+3].call.Pos())
+			if kc, ok := v.(*ssa.Const); ok && kc.Value != nil {
+				kv, _ := constant.Int64Val(constant.ToInt(kc.Value))
+				c.Check(kv == 1, "K10-alpha-hint", key, pos, "alpha_is_used is written as the constant 1 (may have alpha): never contradicts the pixels",
+					"alpha_is_used is written as the constant 0: every file announces 'no alpha', so header queries report opaque pictures whose decoded pixels are not")
+				continue
+			}
+			c.Fail("K10-alpha-hint", key, pos, fmt.Sprintf("alpha_is_used is computed (%s) instead of being the constant 1: GetFeatures, the demuxer, the VP8X alpha flag and the animation decoder's key-frame test trust this bit, and nothing shows that the computation sees every source pixel before the transforms rewrite the buffer - a picture whose bit is 0 while pixels are not opaque is reported as opaque by every header query", p.ExprText(seq[i+3].val.Pos())))
+		}
+	}
+	if n == 0 {
+		c.AnchorMissing("K10-alpha-hint", "VP8L header writer (WriteBits(0x2f, 8), two 14-bit fields, one 1-bit field)")
+	}
+}
+
+
+// nextWriteBits: the WriteBits calls that are the first such call on some path after the given one.
+func nextWriteBits(from *ssa.Call) []*ssa.Call {
+	var out []*ssa.Call
+	isWB := func(in ssa.Instruction) *ssa.Call {
+		call, ok := in.(*ssa.Call)
+		if !ok {
+			return nil
+		}
+		if cal := call.Call.StaticCallee(); cal != nil && cal.Name() == "WriteBits" && len(call.Call.Args) == 3 {
+			return call
+		}
+		return nil
+	}
+	seen := map[*ssa.BasicBlock]bool{}
+	var scan func(b *ssa.BasicBlock, start int)
+	scan = func(b *ssa.BasicBlock, start int) {
+		for i := start; i < len(b.Instrs); i++ {
+			if c := isWB(b.Instrs[i]); c != nil {
+				out = append(out, c)
+				return
+			}
+		}
+		for _, s := range b.Succs {
+			if !seen[s] {
+				seen[s] = true
+				scan(s, 0)
+			}
+		}
+	}
+	blk := from.Block()
+	for i, in := range blk.Instrs {
+		if in == ssa.Instruction(from) {
+			scan(blk, i+1)
+		}
+	}
+	return out
 }
